@@ -19,18 +19,32 @@ package ethereum
 //@ ghost func erc20LockAmt(data string) int
 //@ ghost func erc20RedeemAmt(data string, abi string) int
 
-//@ assume func ParseLock
+// verified for crash-freedom and result nil-ness; the decoded amount is trusted (RLP decoding is external)
+//@ func ParseLock
+//@   safety C18
 //@   modifies nothing
-//@   ensures err == nil ==> req != nil && fresh(req) && req.Amount != nil && fresh(req.Amount) && big(req.Amount) == ethLockAmt(str(data)) && big(req.Amount) >= 0
-//@   ensures err != nil ==> req == nil
+//@   trusts err == nil ==> fresh(req) && req.Amount != nil && fresh(req.Amount) && big(req.Amount) == ethLockAmt(str(data)) && big(req.Amount) >= 0
+//@   ensures err == nil ==> req != nil // C18.lock-result
+//@   ensures err != nil ==> req == nil // C18.lock-result
 
 // redeemParses(data, abi): ParseRedeem accepts the transaction bytes under that ABI
 //@ ghost func ethRedeemParses(data string, abi string) bool
-//@ assume func ParseRedeem
+// go-ethereum's ABI parser and the map scan of getSignFromName do not touch verified state (assumed: external / pure)
+//@ assume extern func github.com/ethereum/go-ethereum/accounts/abi.JSON
 //@   modifies nothing
-//@   ensures (err == nil) == ethRedeemParses(str(data), lockredeemAbi)
-//@   ensures err == nil ==> req != nil && fresh(req) && req.Amount != nil && fresh(req.Amount) && big(req.Amount) == ethRedeemAmt(str(data), lockredeemAbi) && big(req.Amount) >= 0
-//@   ensures err != nil ==> req == nil
+//@ assume func mapkey
+//@   modifies nothing
+
+// ParseRedeem is VERIFIED for crash-freedom (safety C18: every index/slice expression in range, with strings.Split
+// and the hex/abi helpers modelled as arbitrary results) and for the nil-ness of its results; only the two clauses
+// marked `trusts` (the parse is a function of its inputs; the amount is the decoded non-negative integer) are assumed.
+//@ func ParseRedeem
+//@   safety C18
+//@   modifies nothing
+//@   trusts (err == nil) == ethRedeemParses(str(data), lockredeemAbi)
+//@   trusts err == nil ==> fresh(req) && fresh(req.Amount) && big(req.Amount) == ethRedeemAmt(str(data), lockredeemAbi) && big(req.Amount) >= 0
+//@   ensures err == nil ==> req != nil && req.Amount != nil // C18.redeem-result
+//@   ensures err != nil ==> req == nil // C18.redeem-result
 
 //@ assume func DecodeTransaction
 //@   modifies nothing
@@ -51,15 +65,19 @@ package ethereum
 //@   modifies nothing
 //@   ensures err == nil ==> result0 != nil && fresh(result0) && result0.TokenAmount != nil && fresh(result0.TokenAmount) && big(result0.TokenAmount) == erc20LockAmt(str(rawEthTx)) && big(result0.TokenAmount) >= 0
 
-//@ assume func ParseERC20RedeemParams
+//@ func ParseERC20RedeemParams
+//@   safety C18
 //@   modifies nothing
-//@   ensures err == nil ==> result0 != nil && fresh(result0) && result0.Amount != nil && fresh(result0.Amount) && big(result0.Amount) == erc20RedeemAmt(str(rawTx), lockredeemERCAbi) && big(result0.Amount) >= 0
-//@   ensures err != nil ==> result0 == nil
+//@   trusts err == nil ==> fresh(result0) && result0.Amount != nil && fresh(result0.Amount) && big(result0.Amount) == erc20RedeemAmt(str(rawTx), lockredeemERCAbi) && big(result0.Amount) >= 0
+//@   ensures err == nil ==> result0 != nil // C18.erc20-redeem-result
+//@   ensures err != nil ==> result0 == nil // C18.erc20-redeem-result
 
-//@ assume func ParseERC20RedeemToken
+//@ func ParseERC20RedeemToken
+//@   safety C18
 //@   modifies nothing
-//@   ensures err == nil ==> result0 != nil && fresh(result0)
-//@   ensures err != nil ==> result0 == nil
+//@   trusts err == nil ==> fresh(result0)
+//@   ensures err == nil ==> result0 != nil // C18.erc20-redeem-result
+//@   ensures err != nil ==> result0 == nil // C18.erc20-redeem-result
 
 // ---------------------------------------------------------------- C18 (verified, NOT assumed)
 // The two hex-splitting helpers behind VerfiyERC20Lock / ParseErc20Lock / ParseERC20RedeemParams: `data` is the
@@ -68,6 +86,10 @@ package ethereum
 //@ func parseERC20Lock
 //@   safety C18
 //@   modifies nothing
+//@   ensures err == nil ==> req != nil && req.TokenAmount != nil // C18.erc20-lock-result
+//@   ensures err != nil ==> req == nil // C18.erc20-lock-result
 //@ func parseERC20Redeem
 //@   safety C18
 //@   modifies nothing
+//@   ensures err == nil ==> req != nil && req.Amount != nil // C18.erc20-redeem-result
+//@   ensures err != nil ==> req == nil // C18.erc20-redeem-result
